@@ -294,9 +294,10 @@ def _job(job):
             stats['models'] = stats.get('models', 0) + 1
         # languages with re-used field names / two inheritance levels below the declared association ends
         from .. import modelgen
-        for k, (lname, pm) in enumerate(c07.extra_plain_models()):
+        for k, item in enumerate(c07.extra_plain_models()):
+            lname, pm, defs = item[0], item[1], (item[2] if len(item) > 2 else None)
             fx2 = langs.fixture(c07.lang_spec(lname))
-            m, _objs = modelgen.build(fx2, pm)
+            m, _objs = modelgen.build(fx2, pm, defenses=defs)
             viols += check_model(fx2, m, {'source': 'extra', 'variant': f'{lname}#{k}', 'model': pm.describe()}, stats)
             stats['models'] = stats.get('models', 0) + 1
     else:
